@@ -124,6 +124,31 @@ def build (c : Ciphers) (kbpk : Bytes) (h : Header) (forms : List Nat) (padMode 
     let t := tag c ver kbak hdr [] enc
     hdr ++ hexOfBytes (!lower) enc ++ hexOfBytes (!lower) t
 
+/-- `build` with the clear key data given as raw bytes (so that a holder of the KBPK can produce authentic blocks whose
+length prefix is wrong in every possible way — used only by the correspondence streams that exercise the rejection paths
+behind the MAC check) -/
+def buildRaw (c : Ciphers) (kbpk : Bytes) (h : Header) (forms : List Nat) (padMode : Nat) (clear : Bytes) (lower : Bool) : PyStr :=
+  let ver := h.versionId.headD 0
+  let bs := bsOf ver
+  let ml := macLenOf ver
+  let body := encodeBlocks h.blocks forms
+  let (pb, cnt) := padBlock bs body.length padMode
+  let opt := body ++ pb
+  let total := 16 + opt.length + 2 * clear.length + 2 * ml
+  let hdr := h.versionId ++ dec4 total ++ h.keyUsage ++ h.algorithm ++ h.modeOfUse ++ h.versionNum ++
+    h.exportability ++ dec2 (h.blocks.length + cnt) ++ h.reserved ++ opt
+  let (kbek, kbak) := deriveKeys c ver kbpk
+  let blocks := splitBlocks bs clear.length clear
+  if ver = 66 ∨ ver = 68 then
+    let E := if ver = 68 then c.aesE kbek else c.tdesE kbek
+    let t := tag c ver kbak hdr clear []
+    let enc := (cbcEnc E t blocks).flatten
+    hdr ++ hexOfBytes (!lower) enc ++ hexOfBytes (!lower) t
+  else
+    let enc := (cbcEnc (c.tdesE kbek) ((asciiBytes hdr).take 8) blocks).flatten
+    let t := tag c ver kbak hdr [] enc
+    hdr ++ hexOfBytes (!lower) enc ++ hexOfBytes (!lower) t
+
 /-! ## parsing and verification from the grammar -/
 
 def hexNat? (s : PyStr) : Option Nat :=
